@@ -380,3 +380,127 @@ Proof.
       with (uo + w_esize f0 + Z.of_nat (ssum (firstn i (map (fun f => Z.to_nat (w_esize f)) t)))) by ring.
     apply IH; [exact Ht|cbn in Hi; lia].
 Qed.
+
+(* ------------------------------------------------------------------ *)
+(** * The table parsed from the writer's buffer is well shaped *)
+Local Open Scope nat_scope.
+
+Lemma prefix_le : forall ss i, i < length ss -> ssum (firstn i ss) + nth i ss 0 <= ssum ss.
+Proof.
+  induction ss as [|s t IH]; intros i Hi; [cbn in Hi; lia|].
+  destruct i as [|i]; cbn [firstn nth].
+  - change (ssum (s :: t)) with (s + ssum t). cbn. lia.
+  - change (ssum (s :: firstn i t)) with (s + ssum (firstn i t)). change (ssum (s :: t)) with (s + ssum t).
+    specialize (IH i ltac:(cbn in Hi; lia)). lia.
+Qed.
+
+Lemma slice_length : forall (l : list Z) off len, off + len <= length l -> length (slice l off len) = len.
+Proof. intros l off len H. unfold slice. rewrite firstn_length, skipn_length. lia. Qed.
+
+Lemma parse_shaped : forall full szs n buf rlN,
+  length buf = n * ssum szs -> Forall (fun i => i < length szs) rlN ->
+  shaped (parse full szs n buf) n rlN (map (fun i => nth i szs 0) rlN).
+Proof.
+  intros full szs n buf rlN Hlen Hrl. split; [unfold parse; rewrite map_length, seq_length; reflexivity|].
+  split; [apply map_length|].
+  intros I p HI Hp.
+  rewrite (nth_map_in _ _ (fun i => nth i szs 0) rlN p 0 0 Hp).
+  assert (Hi : nth p rlN 0 < length szs) by (rewrite Forall_forall in Hrl; apply Hrl; apply nth_In; exact Hp).
+  set (i := nth p rlN 0) in *.
+  unfold parse.
+  rewrite (nth_map_in _ _ (fun i0 => map (fun os => slice buf (if full then i0 * ssum szs + fst os else n * fst os + i0 * snd os) (snd os))
+                                       (combine (offs_from 0 szs) szs)) (seq 0 n) I 0 []) by (rewrite seq_length; exact HI).
+  rewrite seq_nth by exact HI. cbn [Nat.add].
+  assert (Hc : length (combine (offs_from 0 szs) szs) = length szs) by (rewrite combine_length, offs_from_length; lia).
+  rewrite (nth_map_in _ _ (fun os => slice buf (if full then I * ssum szs + fst os else n * fst os + I * snd os) (snd os))
+                      (combine (offs_from 0 szs) szs) i (0, 0) []) by (rewrite Hc; exact Hi).
+  rewrite combine_nth by apply offs_from_length. cbn [fst snd]. rewrite offs_from_nth by exact Hi. cbn [Nat.add].
+  pose proof (prefix_le szs i Hi) as Hpre.
+  apply slice_length. rewrite Hlen. destruct full; nia.
+Qed.
+Local Open Scope Z_scope.
+
+(* ------------------------------------------------------------------ *)
+(** * Read after write, as an equality of lists with the specification *)
+
+Lemma vsread_out_length : forall w rl fil ur nelt vtb data v l out,
+  m_vsread w rl fil ur nelt vtb data = Some (v, l, out) -> length out = Z.to_nat (user_size w rl nelt).
+Proof.
+  intros w rl fil ur nelt vtb data v l out H. unfold m_vsread in H.
+  destruct ((nelt <=? 0) || match wl_fields w with [] => true | _ :: _ => false end
+            || negb ((ur =? NO_INTERLACE) || (ur =? FULL_INTERLACE))); [discriminate|].
+  destruct (m_vsread_mem w rl fil ur nelt vtb data (fun _ : Z => 238) (user_size w rl nelt)); [|discriminate].
+  inversion H; subst. apply mem_slice_length.
+Qed.
+
+Lemma user_size_multi : forall w rl nelt, (2 <= length (wl_fields w))%nat -> rl_ok (wl_fields w) rl ->
+  user_size w rl nelt = nelt * rsum (wl_fields w) rl.
+Proof.
+  intros w rl nelt H2 Hrl. unfold user_size.
+  destruct (wl_fields w) as [|f1 [|f2 t]]; cbn [length] in H2; try lia. rewrite (uvsize_of_rsum _ rl Hrl). reflexivity.
+Qed.
+
+Lemma cell_split : forall k w s, 1 <= w -> (k < Z.to_nat s)%nat -> s = (s / w) * w ->
+  0 <= Z.of_nat k / w < s / w /\ 0 <= Z.of_nat k mod w < w /\ (Z.of_nat k / w) * w + Z.of_nat k mod w = Z.of_nat k.
+Proof.
+  intros k w s Hw Hk Hs.
+  pose proof (Z.div_mod (Z.of_nat k) w ltac:(lia)). pose proof (Z.mod_pos_bound (Z.of_nat k) w ltac:(lia)).
+  assert (0 <= Z.of_nat k / w) by (apply Z.div_pos; lia).
+  assert (Z.of_nat k < s) by lia.
+  repeat split; try lia. apply Z.div_lt_upper_bound; lia.
+Qed.
+
+Lemma vsread_after_vswrite_lists_lemma : forall w rl fil uw ur nelt vtbW pos nv ubuf r vtbR vtbR' lens out,
+  Forall fld_ok (wl_fields w) -> offs_ok 0 (wl_fields w) -> wl_ivsize w = isum (wl_fields w) ->
+  (2 <= length (wl_fields w))%nat -> rl_ok (wl_fields w) rl ->
+  (fil = 0 \/ fil = 1) -> (uw = 0 \/ uw = 1) -> (ur = 0 \/ ur = 1) -> 0 < nelt ->
+  Z.of_nat (length ubuf) = nelt * isum (wl_fields w) ->
+  m_vswrite w fil uw nelt vtbW pos nv ubuf = Some r ->
+  m_vsread w rl fil ur nelt vtbR (concat (wr_chunks r)) = Some (vtbR', lens, out) ->
+  out = read_buf (ur =? FULL_INTERLACE) (rlN_of rl)
+                 (parse (uw =? FULL_INTERLACE) (szs_of (wl_fields w)) (Z.to_nat nelt) ubuf) 0 (Z.to_nat nelt).
+Proof.
+  intros w rl fil uw ur nelt vtbW pos nv ubuf r vtbR vtbR' lens out Hok Hoff Hiv H2 Hrl Hfil Huw Hur Hn Hlen Hw Hr.
+  set (fl := wl_fields w) in *. set (n := Z.to_nat nelt).
+  assert (Hnn : nelt = Z.of_nat n) by (unfold n; lia).
+  pose proof (ssum_szs fl Hok) as Hszs. pose proof (ssum_ss rl fl Hok Hrl) as Hss.
+  assert (HrlN : Forall (fun i => (i < length (szs_of fl))%nat) (rlN_of rl)).
+  { unfold rlN_of, szs_of. rewrite map_length. apply Forall_forall. intros i Hi. apply in_map_iff in Hi.
+    destruct Hi as [z [<- Hz]]. unfold rl_ok in Hrl. rewrite Forall_forall in Hrl. destruct (Hrl z Hz) as [f Hf].
+    apply (nthf_nth fl z f Hf). }
+  assert (Hbl : length ubuf = (n * ssum (szs_of fl))%nat).
+  { apply Nat2Z.inj. rewrite Hlen, Nat2Z.inj_mul, Hszs, Hnn. reflexivity. }
+  pose proof (parse_shaped (uw =? FULL_INTERLACE) (szs_of fl) n ubuf (rlN_of rl) Hbl HrlN) as Hsh.
+  fold (ss_of fl rl) in Hsh.
+  assert (Hol : length out = (n * ssum (ss_of fl rl))%nat).
+  { rewrite (vsread_out_length _ _ _ _ _ _ _ _ _ _ Hr), (user_size_multi w rl nelt H2 Hrl). fold fl.
+    apply Nat2Z.inj. rewrite Nat2Z.inj_mul, Hss, Z2Nat.id by (pose proof (rsum_nonneg fl rl Hok); nia). rewrite Hnn. reflexivity. }
+  apply (nth_ext _ _ 0 0); [rewrite Hol; symmetry; apply read_buf_length; exact Hsh|].
+  intros a Ha. rewrite Hol in Ha.
+  destruct (addrN_onto (ur =? FULL_INTERLACE) (ss_of fl rl) n a Ha) as [I [p [k [HI [Hp [Hk Ea]]]]]].
+  assert (Hpl : (p < length rl)%nat) by (unfold ss_of, rlN_of in Hp; rewrite !map_length in Hp; exact Hp).
+  rewrite Ea.
+  rewrite (read_buf_cell _ _ n (rlN_of rl) (ss_of fl rl) I p k Hsh HI ltac:(unfold rlN_of; rewrite map_length; exact Hpl) Hk).
+  (* the p-th selected field *)
+  destruct (roffs_at rl fl 0 p Hok Hrl Hpl) as [f [Hf [Hin Hsz]]].
+  destruct (nthf_nth fl _ f Hf) as [Hz0 [Hilt Hnth]].
+  assert (Hfo : fld_ok f) by (rewrite Forall_forall in Hok; apply Hok; eapply nthf_in; eassumption). field_facts f Hfo.
+  assert (Ei : nth p (rlN_of rl) 0%nat = Z.to_nat (nth p rl 0)).
+  { unfold rlN_of. rewrite (nth_indep _ 0%nat (Z.to_nat 0)) by (rewrite map_length; exact Hpl). apply map_nth. }
+  rewrite Ei. set (i := Z.to_nat (nth p rl 0)) in *.
+  assert (Hsi : nth i (szs_of fl) 0%nat = Z.to_nat (w_esize f)) by (apply szs_nth; exact Hf).
+  rewrite Hsz in Hk.
+  rewrite (spec_parse_cell (uw =? FULL_INTERLACE) (szs_of fl) n ubuf I i k HI ltac:(unfold szs_of; rewrite map_length; exact Hilt) ltac:(rewrite Hsi; exact Hk)).
+  (* model side *)
+  assert (Hs' : w_esize f = (w_esize f / fw f) * fw f) by (rewrite He, Z.div_mul by lia; reflexivity).
+  destruct (cell_split k (fw f) (w_esize f) Hw1 Hk Hs') as [Hj [Hb Hjb]].
+  replace (w_esize f / fw f) with (w_order f) in Hj by (rewrite He, Z.div_mul by lia; reflexivity).
+  pose proof (foffs_at fl 0 i f Hok Hilt) as Hfe. rewrite Hnth in Hfe.
+  pose proof (vsread_after_vswrite_lemma w rl fil uw ur nelt vtbW pos nv ubuf r vtbR vtbR' lens out Hok Hoff Hiv H2 Hrl Hfil Huw Hur Hn Hlen Hw Hr
+                f _ _ Hfe Hin (Z.of_nat k / fw f) (Z.of_nat I) (Z.of_nat k mod fw f) Hj ltac:(lia) Hb) as Hcell.
+  fold fl in Hcell. unfold buf_side in Hcell. rewrite !Z.add_0_l in Hcell.
+  rewrite <- Hss, <- Hszs, Hnn in Hcell.
+  rewrite <- (Z2Nat.id (w_esize f)) in Hcell by (apply esize_nonneg; exact Hfo).
+  rewrite (saddr_addrN _ _ _ _ _ _ k _ _ _ Hjb), (saddr_addrN _ _ _ _ _ _ k _ _ _ Hjb), !Nat2Z.id in Hcell.
+  rewrite Hsz. rewrite Hcell. unfold addrN. rewrite Hsi. destruct (uw =? FULL_INTERLACE); reflexivity.
+Qed.
